@@ -370,6 +370,14 @@ class TransferManager(BaseManager):
             self._transfers.remove(transfer)
             await self._event_bus.emit(TransferRemovedEvent(transfer))
 
+        # The user of a removed transfer is no longer seen by the management
+        # cycle: stop tracking the user when this was the last unfinished
+        # transfer
+        if not any(
+                other.username == transfer.username
+                for other in self.get_unfinished_transfers()):
+            await self._user_manager.untrack_user(transfer.username, TrackingFlag.TRANSFER)
+
         self.request_management_cycle(_RequestFlag.TRANSFER_CHANGE)
 
     def get_uploads(self) -> list[Transfer]:
